@@ -186,6 +186,8 @@ class Machine(object):
             if fam == "OPENPGP":
                 name = direction
             ops.append([name, self._dd(rng, cap=300, block=block)])
+            if rng.random() < 0.04 and fam != "OPENPGP":
+                ops.append(["badarg", self._dd(rng, cap=64, block=block), rng.randrange(4), direction])
         return {"group": "classic", "config": cfg, "ops": ops}
 
     def gen_hash(self, rng):
@@ -216,12 +218,15 @@ class Machine(object):
                 nobj += 1
             else:
                 ops.append(["update", o, self._dd(rng, cap=40)])
+            if rng.random() < 0.03:
+                ops.append(["badarg", o, rng.randrange(4)])        # a call refused for its argument, not for the state
         return {"group": "hash", "config": cfg, "ops": ops}
 
     # ------------------------------------------------------------------ run
     def run(self, case, ctx):
         g = case["group"]
         ctx.nontrivial = len(case["ops"]) >= 2
+        self._after_badarg = False
         try:
             if g == "aead":
                 self.run_aead(case, ctx)
@@ -237,7 +242,20 @@ class Machine(object):
         """Run one call.  Returns ('ok', value) | ('refused', None) | ('valueerror', exc)."""
         where = "%s/%s@%s" % (fam, opname, state)
         try:
-            val = fn()
+            val, exc = fn(), None
+        except Exception as e:
+            if getattr(self, "_after_badarg", False) and not forbidden:
+                # the object had refused a call for its arguments before: that it now stops working is tolerated
+                # (what is never tolerated is output that differs from the model without any error)
+                ctx.probe("failed_safe_after_bad_argument")
+                raise Stop()
+            val, exc = None, e
+        return self._call_judged(ctx, where, val, exc, forbidden, either)
+
+    def _call_judged(self, ctx, where, val, exc, forbidden, either):
+        try:
+            if exc is not None:
+                raise exc
         except TypeError as e:
             ctx.obs("TypeError")
             if forbidden or either:
@@ -520,6 +538,27 @@ class Machine(object):
                 outs = b""
                 ctx.fault("pos.jump")
                 continue
+            if name == "badarg":
+                if direction is not None and op[3] != direction and fam in EXCLUSIVE:
+                    continue
+                piece = F.D(op[1])
+                meth = getattr(obj, direction or op[3])
+                try:
+                    if op[2] == 0:
+                        meth(u"text")
+                    elif op[2] == 1:
+                        meth(piece, output=bytearray(len(piece) + 1))
+                    elif op[2] == 2:
+                        meth(piece, output=bytes(len(piece)))
+                    else:
+                        meth(piece, output=bytearray(max(0, len(piece) - 1)) if piece else bytearray(2))
+                except Exception:
+                    ctx.fault("call.bad_argument")
+                    self._after_badarg = True
+                    if direction is None and fam in EXCLUSIVE:
+                        raise Stop()      # whether the refused call fixed the direction is not documented
+                    continue
+                raise Stop()
             arg = F.D(op[1])
             cross = direction is not None and name != direction
             forbidden = cross and fam in EXCLUSIVE
@@ -597,6 +636,15 @@ class Machine(object):
             base = {"hexdigest": "digest", "hexverify": "verify"}.get(name, name)
             st = "fin" if rec["fin"] else ("sq" if rec["rd"] or rec.get("squeezing") else "abs")
             ctx.state((fam, st, base, uad))
+            if base == "badarg":
+                bad = [u"text \u00e9", u"a" * 9000, 5, None][op[2]]
+                try:
+                    o.update(bad)
+                except Exception:
+                    ctx.fault("call.bad_argument")
+                    self._after_badarg = True
+                    continue
+                raise Stop()          # accepted: the history is no longer one the model describes
             if base == "update":
                 arg = F.D(op[2])
                 forbidden = (rec["fin"] and not free_update and not uad) or (xof and st == "sq")
@@ -704,7 +752,7 @@ class Machine(object):
             "assumptions": ["the one-shot result of the library itself is the reference for values (conformance to the "
                             "standards is C02/C03, not claimed)",
                             "transitions on which the documentation is silent are accepted either way (DESIGN App. F)"],
-            "expected_probes": ["digest_repeated", "verify_repeated", "stopped_judging", "update_after_digest_accepted"],
+            "expected_probes": ["failed_safe_after_bad_argument", "digest_repeated", "verify_repeated", "stopped_judging", "update_after_digest_accepted"],
             "not_reached": [],
         }
 
